@@ -3,7 +3,7 @@ import JinjaV.Gen.Sandbox
 namespace JinjaV.Wire.Sandbox
 open JinjaV JinjaV.Gen.Sandbox
 
-/-- `(sbx (class…) (flag…) attr)` → `(ok (internal modifies safeAttr immutableSafeAttr safeCallable invoke))` -/
+/-- `(sbx (class…) (flag…) attr)` or `(sbx (class…) (flag…) (subclass-of…) attr)` → `(ok (internal modifies safeAttr immutableSafeAttr safeCallable invoke))` -/
 def handle : List Sx → Sx
   | [.list cs, .list fs, attr] =>
     match Sx.mapM? Sx.toStr? cs, Sx.mapM? Sx.toStr? fs, attr.toStr? with
@@ -13,11 +13,19 @@ def handle : List Sx → Sx
         Sx.ofBool (Sandboxed_is_safe_attribute o a), Sx.ofBool (Immutable_is_safe_attribute o a),
         Sx.ofBool (Sandboxed_is_safe_callable o), Sx.ofBool (Sandboxed_call o == .invoke)])
     | _, _, _ => Sx.bad
+  | [.list cs, .list fs, .list subs, attr] =>
+    match Sx.mapM? Sx.toStr? cs, Sx.mapM? Sx.toStr? fs, Sx.mapM? Sx.toStr? subs, attr.toStr? with
+    | some cs, some fs, some subs, some a =>
+      let o : Obj := { classes := cs, flags := fs, subclassOf := subs }
+      Sx.ok (.list [Sx.ofBool (isInternalAttribute o a), Sx.ofBool (modifiesKnownMutable o a),
+        Sx.ofBool (Sandboxed_is_safe_attribute o a), Sx.ofBool (Immutable_is_safe_attribute o a),
+        Sx.ofBool (Sandboxed_is_safe_callable o), Sx.ofBool (Sandboxed_call o == .invoke)])
+    | _, _, _, _ => Sx.bad
   | _ => Sx.bad
 
 /-- `(sbx-unblocked)` → the (type, method) pairs that mutate but are admitted (counterexample finder) -/
 def handleUnblocked : List Sx → Sx
-  | _ => Sx.ok (.list (unblockedMutators.map fun (t, m) => .list [.str t, .str m]))
+  | _ => Sx.ok (.list ((unblockedMutators ++ unblockedClassMutators).map fun (t, m) => .list [.str t, .str m]))
 
 /-- request names served by this module (collected into `JinjaV.Wire.All` by tools/gen_wire_all.py) -/
 def handlers : List (String × (List Sx → Sx)) :=
